@@ -3800,6 +3800,15 @@ func (l *Lowerer) lowerFunction(f *parser.FunctionDecl) error {
 			for _, attr := range f.Attributes {
 				if attr.Name == "workgroup_size" {
 					hasWGSize = true
+					for _, arg := range attr.Args {
+						if _, _, err := l.evalConstantIntExpr(arg); errors.Is(err, errConstIntDivByZero) || errors.Is(err, errConstIntModByZero) {
+							return fmt.Errorf("@workgroup_size of '%s': %w", f.Name, err)
+						} else if err != nil {
+							if name, found := l.firstUndeclaredIdent(arg); found {
+								return fmt.Errorf("@workgroup_size of '%s': unresolved identifier: %s", f.Name, name)
+							}
+						}
+					}
 					break
 				}
 			}
